@@ -224,14 +224,14 @@ Inductive err := EDirOverNondir | ENondirOverDir | ENoMatch | EOther | EScope.
 
 Record cstate := {
   c_fs : fsys;
-  c_imap : list (N * (path * N));  (* copier.inodes: source inode -> first destination path
-                                      (+ ghost: the inode id of the copy made there) *)
+  c_imap : list (N * (path * N));  (* copier.inodes: source inode -> destination path of the copy
+                                      that later members are linked to (+ ghost: its inode id) *)
   c_notifs : list (path * bool);   (* change notifications, newest first: (destination path, is-dir) *)
-  c_stale : bool                   (* ghost: a link group member met a map entry whose destination
-                                      path no longer holds the copy made for it *)
+  c_split : bool                   (* ghost: forgetLinkSources dropped a record while another name of
+                                      that copy survives: the group will be spread over two inodes *)
 }.
 Definition with_fs (st : cstate) (fs : fsys) : cstate :=
-  {| c_fs := fs; c_imap := c_imap st; c_notifs := c_notifs st; c_stale := c_stale st |}.
+  {| c_fs := fs; c_imap := c_imap st; c_notifs := c_notifs st; c_split := c_split st |}.
 
 Definition R := (cstate * option err)%type.
 Definition ok (st : cstate) : R := (st, None).
@@ -248,7 +248,17 @@ Fixpoint imap_find (i : N) (l : list (N * (path * N))) : option (path * N) :=
   match l with [] => None | (j, p) :: r => if N.eqb i j then Some p else imap_find i r end.
 
 Definition notify (p : path) (isdir : bool) (st : cstate) : cstate :=
-  {| c_fs := c_fs st; c_imap := c_imap st; c_notifs := (p, isdir) :: c_notifs st; c_stale := c_stale st |}.
+  {| c_fs := c_fs st; c_imap := c_imap st; c_notifs := (p, isdir) :: c_notifs st; c_split := c_split st |}.
+
+(* forgetLinkSources(path): drop every record whose destination path is [T] or lies below it *)
+Definition imap_forget (T : path) (l : list (N * (path * N))) : list (N * (path * N)) :=
+  filter (fun e => negb (is_prefix T (fst (snd e)))) l.
+Definition forget (T : path) (st : cstate) : cstate :=
+  let gone := filter (fun e => is_prefix T (fst (snd e))) (c_imap st) in
+  let split := existsb (fun e => existsb (fun q => negb (is_prefix T q) &&
+                                    match names (c_fs st) q with Some j => N.eqb j (snd (snd e)) | None => false end)
+                                  (dom (c_fs st))) gone in
+  {| c_fs := c_fs st; c_imap := imap_forget T (c_imap st); c_notifs := c_notifs st; c_split := c_split st || split |}.
 
 Section Copy.
   Variable o : copts.
@@ -287,7 +297,8 @@ Section Copy.
     if negb (o_replace o) then ok st else
     match tfi with
     | None => ok st
-    | Some td => if is_dir sd && is_dir td then ok st else ok (with_fs st (k_remove_all target (c_fs st)))
+    | Some td => if is_dir sd && is_dir td then ok st
+                 else let st' := forget target st in ok (with_fs st' (k_remove_all target (c_fs st')))
     end.
 
   (* ensureEmptyFileTarget *)
@@ -320,12 +331,9 @@ Section Copy.
     let fresh := sys (k_create (o_umask o) target (d_content sd) (c_fs st)) in
     if multi ino then
       match imap_find ino (c_imap st) with
-      | Some (link, id) =>
-        let stale := match names (c_fs st) link with Some j => negb (N.eqb j id) | None => true end in
-        sys (k_link link target (c_fs st))
-            {| c_fs := c_fs st; c_imap := c_imap st; c_notifs := c_notifs st; c_stale := c_stale st || stale |}
+      | Some (link, _) => sys (k_link link target (c_fs st)) st
       | None => fresh {| c_fs := c_fs st; c_imap := (ino, (target, next (c_fs st))) :: c_imap st;
-                         c_notifs := c_notifs st; c_stale := c_stale st |}
+                         c_notifs := c_notifs st; c_split := c_split st |}
       end
     else fresh st.
 
@@ -365,7 +373,9 @@ Section Copy.
         end
       else if negb include then ok st1
       else
-        st2 <~ ensure_empty_file_target target st1 ;;
+        (* if targetFi != nil { c.forgetLinkSources(target) } *)
+        st2 <~ ensure_empty_file_target target
+                 (match tfi with Some _ => forget target st1 | None => st1 end) ;;
         st3 <~ (if is_reg sd then copy_regular ino sd target st2
                 else if is_lnk sd then sys (k_symlink target (d_target sd) (c_fs st2)) st2
                 else copy_device sd target st2) ;;
@@ -581,10 +591,10 @@ Section Top.
     end.
 
   Definition copy_top (fs : fsys) (src dst : bytes) : R :=
-    let st0 := {| c_fs := fs; c_imap := []; c_notifs := []; c_stale := false |} in
+    let st0 := {| c_fs := fs; c_imap := []; c_notifs := []; c_split := false |} in
     let ensure := match split_last dst with
-                  | Some (d, f) => if nonempty f && negb (bytes_eqb f s_dot) then d else dst
-                  | None => if nonempty dst && negb (bytes_eqb dst s_dot) then [] else dst
+                  | Some (d, f) => if nonempty f && negb (bytes_eqb f s_dot) && negb (bytes_eqb f s_dotdot) then d else dst
+                  | None => if nonempty dst && negb (bytes_eqb dst s_dot) && negb (bytes_eqb dst s_dotdot) then [] else dst
                   end in
     let '(st1, e1, cr1) :=
       match ensure with
